@@ -25,7 +25,8 @@ BASE_CFG = {
     "final_order": 0.6,
     "ops": {"ordered_window": 5, "window": 4, "natural_join": 4, "order_rows": 3},
     "null_order_cols": True,
-    "block_table_prob": 0.15,
+    "block_table_prob": 0.25,
+    "drop_order_col_prob": 0.5,
 }
 
 INDEX_KINDS = ["default", "shuffled_int", "str_labels", "duplicate_labels", "descending", "range_offset", "range_step"]
